@@ -379,8 +379,17 @@ impl Property for C02 {
                 return Ok(());
             },
         };
+        // the deliberate dot components of shape Dots are the only ones allowed: anything else —
+        // also spelled as `[.]`, `{..}`, `<.:2>`, which are invariant text and land in the prefix
+        // just the same — is skipped (the candidate text of every entry must be known by
+        // construction, and a stray `..` must never lead out of the scratch directory)
+        let deliberate = match &case.shape {
+            Shape::Dots(c) => c.iter().filter(|x| *x == "." || *x == "..").count(),
+            _ => 0,
+        };
         if text.split(|c| "/{},<>:".contains(c)).any(|c| c == "." || c == "..") && !matches!(case.shape, Shape::Dots(_))
             || crate::props::c12::has_dot_component(&case.glob).0
+            || prefix_dot_components(&glob) != deliberate
         {
             // `.` / `..` components are only placed deliberately (shape Dots), where the candidate
             // text of every entry is known by construction
